@@ -92,16 +92,28 @@ func (dec *Decoder) readStringAsBytes(utf16Length int) (data []byte, safe bool) 
 			data = make([]byte, 0, utf16Length*3)
 		}
 		data = append(data, buf...)
-		if !dec.loadMore() {
-			if remains < 0 {
-				if dec.Error == nil {
+		// the last character may be cut by the end of the buffer: fetch the bytes
+		// it still misses, however many reads that takes
+		for missing := -remains; ; {
+			if !dec.loadMore() {
+				if missing > 0 && dec.Error == nil {
 					dec.Error = ErrInvalidUTF8
 				}
+				return
 			}
-			return
+			if missing <= 0 {
+				break
+			}
+			n := dec.tail - dec.head
+			if n > missing {
+				n = missing
+			}
+			data = append(data, dec.buf[dec.head:dec.head+n]...)
+			dec.head += n
+			if missing -= n; missing == 0 {
+				break
+			}
 		}
-		data = append(data, dec.buf[dec.head:dec.head-remains]...)
-		dec.head -= remains
 		length = dec.tail - dec.head
 	}
 }
